@@ -34,6 +34,12 @@ def analyse(prog: Program, prop: str, tier: str) -> Ctx:
     if prog.parse_errors:
         raise AnchorMissing("syntax errors: " + "; ".join(prog.parse_errors))
     rule_module(prop).check(ctx)
+    if not any(r.startswith("R15.7") for r in ctx.instances):
+        # frame condition of every abstract run: the interpreter starts each run from the module-level
+        # state the source declares, which is only right if nothing observable is carried between calls there
+        from .rules import c03, c15
+
+        c03._guarded(ctx, "R15.7", c15.check_globals)
     return ctx
 
 
